@@ -21,23 +21,32 @@ E3(r, c) == [i \in 1..3 |-> [j \in 1..3 |-> IF i = r /\ j = c THEN 1 ELSE 0]]
 P3 == << <<0, 1, 0>>, <<0, 0, 1>>, <<1, 0, 0>> >>
 U3 == << <<1, 2, 0>>, <<0, 1, -1>>, <<0, 0, 1>> >>
 L3 == << <<1, 0, 0>>, <<-1, 2, 0>>, <<3, 1, -2>> >>
-M3 == {E3(1, 2), E3(2, 1), E3(2, 3), E3(3, 1), P3, U3, L3}
+M3 == {E3(1, 2), E3(2, 1), E3(2, 3), P3, U3, L3}
+M3b == {E3(3, 1), U3, L3}
 
 IntTable(c11, c20, c21, c22, c30, c31, c32, c33) ==
   LET q(n) == <<n, 1>> IN
   << <<q(0), q(0), q(0), q(0)>>, <<q(0), q(c11), q(0), q(0)>>,
      <<q(c20), q(c21), q(c22), q(0)>>, <<q(c30), q(c31), q(c32), q(c33)>> >>
 
-Init ==
-  \/ x \in [kind : {"ome"}, A1 : M2, A2 : M2, A3 : M2]
-  \/ x \in [kind : {"ome3"}, A1 : M3, A2 : M3, A3 : M3]
-  \/ \E c11 \in -2..2, c20 \in B01, c21 \in B01, c22 \in B01,
-        c30 \in B01, c31 \in B01, c32 \in B01, c33 \in B01 :
-        x = [kind |-> "dec", T |-> IntTable(c11, c20, c21, c22, c30, c31, c32, c33)]
-  \/ \E c11 \in (IF Variant = "mass_c11" THEN {1} ELSE {0}), c20 \in -1..1, c21 \in B01, c22 \in B01,
-        c30 \in B01, c31 \in B01, c32 \in B01, c33 \in B01 :
-        x = [kind |-> "mass", T |-> IntTable(c11, c20, c21, c22, c30, c31, c32, c33)]
-Next == UNCHANGED x
+(* Seeds are the initial states; each seed expands to its share of the instances  *)
+(* in one step, so that the 16 TLC workers share the work.                        *)
+MassC11 == IF Variant = "mass_c11" THEN {1} ELSE {0}
+Seeds ==
+  [kind : {"seed"}, of : {"ome"}, A1 : M2, c : {0}, e : {0}] \cup
+  [kind : {"seed"}, of : {"ome3"}, A1 : M3, c : {0}, e : {0}] \cup
+  [kind : {"seed"}, of : {"dec"}, A1 : {<<>>}, c : -2..2, e : B01] \cup
+  [kind : {"seed"}, of : {"mass"}, A1 : {<<>>}, c : MassC11, e : -1..1]
+Init == x \in Seeds
+Next ==
+  /\ x.kind = "seed"
+  /\ \/ /\ x.of = "ome"
+         /\ x' \in [kind : {"ome"}, A1 : {x.A1}, A2 : M2, A3 : M2]
+      \/ /\ x.of = "ome3"
+         /\ x' \in [kind : {"ome3"}, A1 : {x.A1}, A2 : M3, A3 : M3b]
+      \/ /\ x.of \in {"dec", "mass"}
+         /\ \E c21 \in B01, c22 \in B01, c30 \in B01, c31 \in B01, c32 \in B01, c33 \in B01 :
+               x' = [kind |-> x.of, T |-> IntTable(x.c, x.e, c21, c22, c30, c31, c32, c33)]
 
 (* build_ome variants *)
 Expanded(A, n) ==
@@ -58,10 +67,14 @@ Invert(T) ==
 
 IsOme == x.kind \in {"ome", "ome3"}
 As == << MOfInt(x.A1), MOfInt(x.A2), MOfInt(x.A3) >>
-InvExpandedLaw == IsOme => \A n \in 0..3 : C22_TruncatedInverse(Forward(As, n), Expanded(As, n), n)
-InvExpandedDerived == IsOme => \A n \in 0..3 : SEq(Expanded(As, n), DerivedInverse(Forward(As, n), n))
-(* the derived inverse itself obeys the law (sanity of the derivation)          *)
-InvDerivedLaw == IsOme => \A n \in 0..3 : C22_TruncatedInverse(Forward(As, n), DerivedInverse(Forward(As, n), n), n)
-InvDecoupling == x.kind = "dec" => \A n \in 0..3 : C22_CouplingInverse(x.T, Invert(x.T), n)
-InvMass == x.kind = "mass" => \A n \in 0..3 : C22_MassInverse(x.T, Invert(x.T), n)
+(* The law is checked at the highest order; the lower orders follow because the  *)
+(* order-n operators are the truncations of the order-3 ones (InvTruncation) and  *)
+(* the coefficients of a product up to a^n depend on the factors up to a^n only.   *)
+InvExpandedLaw == IsOme => C22_TruncatedInverse(Forward(As, 3), Expanded(As, 3), 3)
+InvTruncation == IsOme => \A n \in 0..2 :
+                    /\ SEq(Expanded(As, n), STrunc(Expanded(As, 3), n))
+                    /\ SEq(Forward(As, n), STrunc(Forward(As, 3), n))
+InvExpandedDerived == IsOme => SEq(Expanded(As, 3), DerivedInverse(Forward(As, 3), 3))
+InvDecoupling == x.kind = "dec" => C22_CouplingInverse(x.T, Invert(x.T), 3)
+InvMass == x.kind = "mass" => C22_MassInverse(x.T, Invert(x.T), 3)
 =============================================================================
